@@ -54,6 +54,9 @@ func runExact(c *Ctx) {
 		}
 	}
 	sets := c.ArgInt("recall", c.Pick(2, 10))
+	if sets > 0 {
+		recallCase(c, NewRng(64), -1) // the known finding's witness, every run
+	}
 	for i := 0; i < sets; i++ {
 		recallCase(c, rng.Fork(), i)
 	}
@@ -333,7 +336,11 @@ func recallCase(c *Ctx, r *Rng, no int) {
 	dims := []int{8, 16, 32, 64}
 	dim := dims[r.Intn(len(dims))]
 	n := c.Pick(2000, 4000) + r.Intn(c.Pick(500, 2000))
-	sp, spName := spaceByName(r.Intn(3))
+	spNo := r.Intn(3)
+	if no < 0 { // the recorded witness of the known finding C07/recall-below-floor/high-dimension
+		dim, n, spNo = 64, 4000, 2
+	}
+	sp, spName := spaceByName(spNo)
 	nq := c.Pick(100, 400)
 	c.Begin(fmt.Sprintf("recall n=%d dim=%d %s queries=%d", n, dim, spName, nq))
 	h := index.NewHnsw(uint(dim), sp)
@@ -383,7 +390,15 @@ func recallCase(c *Ctx, r *Rng, no int) {
 	c.OpLocal("mean recall@10 = %.4f", recall)
 	c.Count(fmt.Sprintf("recall-bucket:%.2f", math.Floor(recall*20)/20))
 	if recall < 0.8 {
-		c.Violate("C07", "C07/recall-below-floor", fmt.Sprintf("mean recall@10 = %.3f over %d queries on %d random %d-dimensional points (%s, default parameters)", recall, nq, n, dim, spName), c.History())
+		// The floor does not hold on the unchanged tree for high-dimensional random data: with the default
+		// ef = 20, i.i.d. Gaussian points in 32 and more dimensions fall below it as the collection grows
+		// (64 dimensions: 0.60 - 0.78 from 2000 items on; 32 dimensions: 0.74 - 0.83 from 3000 items on) —
+		// a known finding of its own. Below 0.5 it is not that finding any more.
+		sig := "C07/recall-below-floor"
+		if dim >= 32 && recall >= 0.5 {
+			sig = "C07/recall-below-floor/high-dimension"
+		}
+		c.Violate("C07", sig, fmt.Sprintf("mean recall@10 = %.3f over %d queries on %d random %d-dimensional points (%s, default parameters)", recall, nq, n, dim, spName), c.History())
 	}
 	c.Nontrivial("recall")
 	c.End()
